@@ -12,7 +12,7 @@
    ([text_ok], decidable: Meta/Shape.v) says that the text is what the reader makes of its tokens. *)
 From Coq Require Import List String NArith Bool Arith.
 From Pegen Require Import Base.StrUtil Grammar.Ast Grammar.Printer
-  Meta.Reader Meta.PrintToks Meta.Canon Meta.TargetAtoms Meta.RoundTripDefs Meta.RoundTrip Meta.Strip Meta.Shape.
+  Meta.Reader Meta.PrintToks Meta.Canon Meta.TargetAtoms Meta.RoundTripDefs Meta.RoundTrip Meta.Strip Meta.Shape Meta.ReaderTotal.
 Import ListNotations.
 Open Scope string_scope.
 
@@ -40,6 +40,14 @@ Qed.
 Print Assumptions C09_print_then_read_any_fuel.
 
 (* The printer writes the postfix optional only for atoms. *)
+(* The reference reader is total: with the fuel the checks give it ([read_fuel] = 8 * tokens + 16) it never
+   runs out, on ANY token sequence -- so when the K-ref correspondence sees the reference reader say Fail, that
+   is a rejection by the transcribed metagrammar rules and never an artefact of the fuel. *)
+Theorem C09_reference_reader_total :
+  forall ts : list gtok, read_grammar (read_fuel ts) ts <> Fuel.
+Proof. exact reader_total. Qed.
+Print Assumptions C09_reference_reader_total.
+
 Theorem C09_opt_rendering :
   forall simple j,
   item_str simple (Opt j) = "[" ++ item_str simple j ++ "]"
